@@ -536,15 +536,73 @@ def run(ctx):
                     ctx.case(('sky', kind, tuple(p), method, sub, rot, mid), contract='sky==to_pixel(wcs)')
                     for key, what, k in fails:
                         ctx.check(False, key, what, case=dict(case, fkey=key))
+    # error maps in integer / narrow dtypes (squares must not wrap in the input dtype)
+    for dt in INT_ERR_DTYPES:
+        for ap in ('circ', 'rect'):
+            for method in ('exact', 'center', 'subpixel'):
+                case = {'chk': 'interr', 'dtype': dt, 'aper': ap, 'method': method, 'seed': seed}
+                fails = eval_interr(case)
+                ctx.case(('interr', dt, ap, method), contract='sum_err == sqrt(sum(w*error^2)) for every error dtype')
+                for key, what, k in fails:
+                    ctx.check(False, key, what, case=dict(case, fkey=key))
     ctx.note(f'{combos} (image, mask, error, aperture, method) combinations; {nover[0]} positions overlapping the image; {nsky} sky cases. '
              'Observations (not contracts of C02): aperture_photometry/do_photometry accept only ndarray masks '
              '(a nested-list mask raises AttributeError although documented array_like); do_photometry without an '
              'error map returns an error array holding one NaN per off-image position instead of an empty array.')
 
 
+INT_ERR_DTYPES = ['uint8', 'uint16', 'int16', 'int32', 'uint32', 'float32', '>f8']
+
+
+def eval_interr(case):
+    """sum_err for integer / narrow error-map dtypes whose squares do not fit the dtype: must equal
+    sqrt(sum(w * error**2)) computed in exact integer / float arithmetic over the selected pixels."""
+    import numpy as np
+    from photutils.aperture import CircularAperture, RectangularAperture, aperture_photometry
+    dt = case['dtype']
+    ny, nx = 9, 11
+    rng = np.random.default_rng(case['seed'])
+    base = {'uint8': 17, 'uint16': 300, 'int16': 200, 'int32': 50000, 'uint32': 70000,
+            'float32': 3.5, '>f8': 2.25}[dt]
+    err = (base + rng.integers(0, 5, size=(ny, nx))).astype(dt)
+    data = rng.normal(5, 1, size=(ny, nx))
+    mask = np.zeros((ny, nx), bool)
+    mask[4, 5] = True
+    pos = [(5.2, 4.1), (0.3, 0.4), (10.6, 8.2), (-30., 4.)]
+    aper = CircularAperture(pos, 2.3) if case['aper'] == 'circ' else RectangularAperture(pos, 3., 4.4, 0.3)
+    method = case['method']
+    fails = []
+    tbl = aperture_photometry(data, aper, error=err, mask=mask, method=method, subpixels=3)
+    _, errs = aper.do_photometry(data, error=err, mask=mask, method=method, subpixels=3)
+    masks = aper.to_mask(method=method, subpixels=3)
+    for k, (m, p_) in enumerate(zip(masks, pos)):
+        img = m.to_image((ny, nx))
+        if img is None:
+            exp = np.nan
+        else:
+            tot = 0.0
+            for y in range(ny):
+                for x in range(nx):
+                    w = float(img[y, x])
+                    if w > 0 and not mask[y, x]:
+                        e = float(err[y, x])      # python float: no wrap-around
+                        tot += w * e * e
+            exp = tot ** 0.5
+        for name, got in (('aperture_photometry', float(tbl['aperture_sum_err'][k])),
+                          ('do_photometry', float(np.asarray(errs)[k]))):
+            ok = (np.isnan(exp) and np.isnan(got)) or (np.isfinite(got) and abs(got - exp) <= 1e-6 * max(1.0, abs(exp)))
+            if not ok:
+                fails.append(('sum_err/integer-or-narrow-error-dtype',
+                              f'{name} error dtype {dt}, {case["aper"]} {method} at {p_}: sum_err={got!r}, '
+                              f'expected sqrt(sum(w*error^2))={exp!r}', k))
+    return fails
+
+
 def replay(case):
     try:
-        if case.get('chk') == 'sky':
+        if case.get('chk') == 'interr':
+            fails = eval_interr(case)
+        elif case.get('chk') == 'sky':
             fails = eval_sky(case)
         else:
             fails = eval_combo(dict(case, extras=True))
